@@ -516,6 +516,10 @@ func c13(x *Ctx) {
 
 // lockedAt: the instruction is dominated by Lock() on the given mutex field with no Unlock in between on any path.
 func lockedAt(in ssa.Instruction, mutexField func(eng.FieldRef) bool) bool {
+	return lockedAtMode(in, mutexField, false)
+}
+
+func lockedAtMode(in ssa.Instruction, mutexField func(eng.FieldRef) bool, writeOnly bool) bool {
 	f := in.Parent()
 	isOn := func(i ssa.Instruction, names ...string) bool {
 		cl, ok := i.(ssa.CallInstruction)
@@ -558,7 +562,7 @@ func lockedAt(in ssa.Instruction, mutexField func(eng.FieldRef) bool) bool {
 			if i == in && !held {
 				return false
 			}
-			if isOn(i, "(*sync.Mutex).Lock", "(*sync.RWMutex).Lock", "(*sync.RWMutex).RLock") {
+			if isOn(i, "(*sync.Mutex).Lock", "(*sync.RWMutex).Lock") || !writeOnly && isOn(i, "(*sync.RWMutex).RLock") {
 				held = true
 			}
 			if isOn(i, "(*sync.Mutex).Unlock", "(*sync.RWMutex).Unlock", "(*sync.RWMutex).RUnlock") {
